@@ -18,8 +18,5 @@ if [ "$FULL" = "--fulltests" ]; then
 fi
 echo "== quick check against patched copy"
 cd /verif
-cp evidence/$PROP.json "$S/ev.json" 2>/dev/null
-VERIF_REPO=$S/repo PYTHONPATH=$S/repo timeout 3000 /venv/bin/python -m dsim check $PROP --tier quick > "$S/check.log" 2>&1; echo "check exit=$?"
+VERIF_EVIDENCE_DIR=$S/evidence VERIF_REPLAY_DIR=$S/replays VERIF_REPO=$S/repo PYTHONPATH=$S/repo timeout 3000 /venv/bin/python -m dsim check $PROP --tier quick > "$S/check.log" 2>&1; echo "check exit=$?"
 grep -E "^(VIOLATION|  violation|HARNESS-ERROR|C14 |C20 )" "$S/check.log" | cut -c1-600
-cp "$S/ev.json" evidence/$PROP.json 2>/dev/null
-rm -f /verif/replays/*.json
